@@ -218,3 +218,61 @@ package dispatcher
 //@   ensures[C13] req != nil && req.Denom != "" && protoNameOK(req.SourceProtocolId) && protoNameOK(req.DestinationProtocolId) &&
 //@                vcc(mk("core.CrossChainID", protoByName(req.SourceProtocolId), req.SourceCounterpartyId)) &&
 //@                vcc(mk("core.CrossChainID", protoByName(req.DestinationProtocolId), req.DestinationCounterpartyId)) && qNonZero(q, qk(req)) ==> err == nil
+
+// ---------------------------------------------------------------------------------------------
+// Export of the totals (C17): the exported entries are the enumeration of the map, each rebuilt from
+// its key - source identifier from the first two components, destination identifier parsed back from the
+// third, denomination the fourth - with the stored amounts.
+// ---------------------------------------------------------------------------------------------
+
+// Store invariant: every key under which totals are recorded was built by SetDispatchedAmount from two valid
+// identifiers: its first two components form a valid identifier and its third is the textual form of one
+// (idP/idC name the pair it is the text of).
+//@ smt (declare-fun idP (String) Int)
+//@ smt (declare-fun idC (String) String)
+//@ macro amap(d) = amt_has[d.dispatchedAmounts]
+//@ macro amtKeyOK(q) = vcc(mk("core.CrossChainID", q.k1, q.k2)) && q.k1 >= 0 && vcc(mk("core.CrossChainID", idP(q.k3), idC(q.k3))) && 1 <= idP(q.k3) && idP(q.k3) <= 9 && q.k3 == idstr(idP(q.k3), idC(q.k3))
+//@ macro amtKeysOK(d) = forall q T_cosmossdk_io_collections_Quad_int32_string_string_string_ trigger(amap(d)[q]) :: amap(d)[q] ==> amtKeyOK(q)
+
+//@ macro entryOfKey(e, d, q) = e.SourceId != nil && deref(e.SourceId).ProtocolId == q.k1 && deref(e.SourceId).CounterpartyId == q.k2 &&
+//@        e.DestinationId != nil && deref(e.DestinationId).ProtocolId == idP(q.k3) && deref(e.DestinationId).CounterpartyId == idC(q.k3) &&
+//@        e.Denom == q.k4 && e.AmountDispatched == amt_val[d.dispatchedAmounts][q]
+
+//@ func (d *Dispatcher) getDispatchedAmountEntryFromKey(ctx, k) (entry, err)
+//@   requires[inv] d != nil
+//@   ensures[C17] amap(d)[k] && amtKeyOK(k) ==> err == nil && entryOfKey(entry, d, k) && fresh(entry.SourceId) && fresh(entry.DestinationId)
+
+//@ func (d *Dispatcher) GetAllDispatchedAmounts(ctx) (entries)
+//@   requires[inv] d != nil && d.logger != nil && amtKeysOK(d)
+//@   walk 0 invariant[C17] len(amounts) == widx
+//@   walk 0 invariant[C17] forall j int trigger(amounts[j]) :: 0 <= j && j < widx ==> entryOfKey(amounts[j], d, enumAtQ(amap(d), j)) && allocated(amounts[j].SourceId) && allocated(amounts[j].DestinationId)
+//@   ensures[C17] enumFactsQ(amap(d)) && len(entries) == enumLenQ(amap(d))
+//@   ensures[C17] forall j int trigger(entries[j]) :: 0 <= j && j < len(entries) ==> entryOfKey(entries[j], d, enumAtQ(amap(d), j))
+//@   ensures[C17] amt_has == old(amt_has) && amt_val == old(amt_val)
+
+// The same for the counts (both identifiers are key components, nothing is parsed).
+//@ macro cmap(d) = cnt_has[d.dispatchedCounts]
+//@ macro cntKeyOK(q) = vcc(mk("core.CrossChainID", q.k1, q.k2)) && vcc(mk("core.CrossChainID", q.k3, q.k4))
+//@ macro cntKeysOK(d) = forall q T_cosmossdk_io_collections_Quad_int32_string_int32_string_ trigger(cmap(d)[q]) :: cmap(d)[q] ==> cntKeyOK(q)
+//@ macro cntEntryOfKey(e, d, q) = e.SourceId != nil && deref(e.SourceId).ProtocolId == q.k1 && deref(e.SourceId).CounterpartyId == q.k2 &&
+//@        e.DestinationId != nil && deref(e.DestinationId).ProtocolId == q.k3 && deref(e.DestinationId).CounterpartyId == q.k4 && e.Count == cnt_val[d.dispatchedCounts][q]
+
+//@ func (d *Dispatcher) getDispatchCountEntryFromKey(ctx, k) (entry, err)
+//@   requires[inv] d != nil
+//@   ensures[C17] cmap(d)[k] && cntKeyOK(k) ==> err == nil && cntEntryOfKey(entry, d, k) && fresh(entry.SourceId) && fresh(entry.DestinationId)
+
+//@ func (d *Dispatcher) GetAllDispatchedCounts(ctx) (entries)
+//@   requires[inv] d != nil && d.logger != nil && cntKeysOK(d)
+//@   walk 0 invariant[C17] len(counts) == widx
+//@   walk 0 invariant[C17] forall j int trigger(counts[j]) :: 0 <= j && j < widx ==> cntEntryOfKey(counts[j], d, enumAtQC(cmap(d), j)) && allocated(counts[j].SourceId) && allocated(counts[j].DestinationId)
+//@   ensures[C17] enumFactsQC(cmap(d)) && len(entries) == enumLenQC(cmap(d))
+//@   ensures[C17] forall j int trigger(entries[j]) :: 0 <= j && j < len(entries) ==> cntEntryOfKey(entries[j], d, enumAtQC(cmap(d), j))
+//@   ensures[C17] cnt_has == old(cnt_has) && cnt_val == old(cnt_val)
+
+// The exported dispatcher genesis: both lists are the enumerations of the two maps.
+//@ func (d *Dispatcher) ExportGenesis(ctx) (g)
+//@   requires[inv] d != nil && d.logger != nil && amtKeysOK(d) && cntKeysOK(d)
+//@   ensures[C17] g != nil && enumFactsQ(amap(d)) && enumFactsQC(cmap(d)) && len(g.DispatchedAmounts) == enumLenQ(amap(d)) && len(g.DispatchedCounts) == enumLenQC(cmap(d))
+//@   ensures[C17] forall j int trigger(g.DispatchedAmounts[j]) :: 0 <= j && j < len(g.DispatchedAmounts) ==> entryOfKey(g.DispatchedAmounts[j], d, enumAtQ(amap(d), j))
+//@   ensures[C17] forall j int trigger(g.DispatchedCounts[j]) :: 0 <= j && j < len(g.DispatchedCounts) ==> cntEntryOfKey(g.DispatchedCounts[j], d, enumAtQC(cmap(d), j))
+//@   ensures[C17] amt_has == old(amt_has) && amt_val == old(amt_val) && cnt_has == old(cnt_has) && cnt_val == old(cnt_val)
